@@ -228,7 +228,7 @@ async fn c16_prog(ctx: Ctx, depth: usize, read_every_step: bool) {
 }
 
 pub fn c16(args: &Args) -> Vec<Scenario> {
-    let d = if args.thorough() { 4 } else { 3 };
+    let d = if args.thorough() { 5 } else { 4 };
     let mk = |name: String, depth: usize, every: bool| {
         Scenario::new(name, 99, move |ctx| c16_prog(ctx, depth, every)).cfg(|c| {
             c.horizon_ms = 120_000;
